@@ -10,7 +10,7 @@ CHECKS = {
     "C04": ("exhaustive enumeration of the dispatch lattice against a model of the plum resolver (rule table extracted from decorators with ast)",
             "Complete decision for the finite lattice (function x operator kind(s) x annotation set x algorithm class x arity x configuration): every tuple "
             "must have exactly one winning rule under plum's algorithm, in registration and reversed order. A tie or a missing rule is reported with the "
-            "candidate list; every rule's cond lambda must accept the arity of every signature registered for the rule (defaults create shorter ones). This is the property itself, decided from the decorators, including tuples and backends no test builds.",
+            "candidate list; every rule's cond lambda must accept the arity of every signature registered for the rule (defaults create shorter ones). An algorithm argument a rule hands on untouched and unconditionally to another dispatched function carries every class the rule can be selected with to that function's selection: each must be admitted there or accepted by an unconditional generic rule (forwarded-algorithm). This is the property itself, decided from the decorators, including tuples and backends no test builds.",
             "Trusted: the ~150-line resolver model (differentially tested against the live plum registry in the thorough tier), the documented argument "
             "kinds in sa/oracle_domains.py, name resolution of sa/index.py. Errors raised inside the selected rule are outside the property.", "4/C04"),
     "C19": ("reachability over the call graph with dispatch edges resolved by the resolver model; materialiser who-may-call; default-arity consistency",
@@ -25,7 +25,7 @@ CHECKS = {
             "randn must derive from a parameter, PRNGKey(constant) or next_key; loop-carried keys must advance; PRNGKey/next_key must depend on their argument; "
             "the Hutchinson loop has a cap conjunct and a +1 counter. Of unbiasedness only three necessary conditions are decided: probe/estimator conjugation agreement, that "
             "the estimator reads the sign of the offset k (not only abs(k)), and that on every path of the loop body the multiplier of (A @ z) is the probe block z itself or a shift / mask of it. "
-            "The options given to Auto (tolerance, iteration cap, key) reach the estimator it constructs. No function writes a new key into an object passed by its caller. The cap comparison is strict exactly when the counter starts at 0. A local generator is never created from a seed that may be None.",
+            "The options given to Auto (tolerance, iteration cap, key) reach the estimator it constructs. No function writes a new key into an object passed by its caller. The cap comparison is strict exactly when the counter starts at 0. A local generator is never created from a seed that may be None. Every routine and algorithm object that takes rand / key / tol / max_iters / bs and calls the estimator hands its own value on (option-passthrough).",
             "Statistical unbiasedness, variance and the Rademacher-exactness claim are not decided. Exceptional exits inside a bracket are ignored.", "4/C17"),
     "C18": ("ownership / effect analysis: flow-sensitive origins of every in-place write target, parameter-write and return-alias summaries to a fixpoint over the resolved call graph",
             "Full for non-mutation: every in-place write site in cola/ (update_array on numpy/torch, augmented assignment, subscript/attribute store, out=, mutating methods, "
@@ -81,14 +81,14 @@ CHECKS = {
     "C16": ("def-use pairing, sign provenance and term rewriting over the svd rules; pinv rules as in C06",
             "Structural necessary conditions of a valid SVD / pseudo-inverse: U, Sigma and V are permuted / sliced by one common index in every rule; Sigma is non-negative by "
             "provenance (backend singular values, sqrt of eigenvalues, ones) and is refuted when it is the rule's own payload; the Krylov rules run the eigen-solver on H(A)A or A H(A) "
-            "(not on a transposed Gram matrix) and recover the other factor as A V inv(Sigma) / H(A) U inv(Sigma); pinv structural rules equal the inverse of the payload, the "
+            "(not on a transposed Gram matrix) and recover the other factor as A V inv(Sigma) / H(A) U inv(Sigma); pinv structural rules equal the inverse of the payload, the mask selecting the entries a pinv rule inverts is not an ordering test on the signed payload, the "
             "least-squares operator has shape (columns, rows); an exit that returns one factor as both U and V is restricted to PSD operands; the CG pseudo-inverse runs the solver on a Gram matrix whose range contains the vector it is "
             "applied to for wide and for tall operands; Auto tables are exhaustive.",
             "Orthonormality, best rank-k and minimum-norm optimality are numerical and not decided; the CG pinv rule regularises on purpose and has no exact-algebra obligation.", "4/C16"),
     "C07": ("scalar term rewriting of every slogdet rule against the determinant identities; dependence and sign-domain rules; decision table of the Auto rule",
             "Decides the algebraic shape of the (sign, logabs) pair of every slogdet rule: product of square factors, Kronecker exponent N/n_i on sign and log-magnitude, block "
             "multiplicities, diagonal / triangular (prod d/|d|, sum log|d|), c I_n -> ((c/|c|)^n, n log|c|), identity, Cholesky (s conj s, 2 ld), delegation to P L U; the sign must "
-            "depend on what the determinant's sign depends on (permutation parity); the log-magnitude must not be provably non-negative; logdet returns the second component and "
+            "depend on what the determinant's sign depends on (permutation parity); a rule for a kind without a closed form in the scalar grammar (Householder) must read every payload the determinant provably varies with; the log-magnitude must not be provably non-negative; logdet returns the second component and "
             "forwards both algorithm arguments; Auto picks Cholesky/Lanczos only under PSD.",
             "Accuracy of the Krylov / stochastic trace path and branch cuts are not decided.", "4/C07"),
     "C08": ("dominance / dependence / idiom checks over the diag and trace rules",
@@ -112,7 +112,7 @@ CHECKS = {
             "That returned pairs satisfy A v = lambda v, convergence and linear independence are numerical and not decided.", "4/C10"),
     "C12": ("bounded-loop certificate (cap conjunct + counter monotonicity), def-use of the stopping tolerance and the scaling array, axis discipline of reductions, typestate of the iteration counter",
             "Decides the stopping contract and the structural part of the per-column claim: the loop condition is a conjunction containing k < max_iters with k from 0 by +1 per body; it "
-            "continues while ANY column's residual norm exceeds tol' = tol*||r0|| + tol, computed once; the right-hand side is divided by its column norms and solution and residual are "
+            "continues while ANY column's residual norm exceeds tol' = tol*||r0|| + tol, computed once; a statistic over the batch (mean / sum / min / median of the residual norms) in its place is refuted; every wrapper and the CG object hand tol / max_iters / x0 / P on to the routine they call; the right-hand side is divided by its column norms and solution and residual are "
             "multiplied back by the same array (linearity in b, exact zero for b = 0); every reduction on the CG state in the routine and its helpers is over the row axis (no mixing of "
             "right-hand-side columns); the reported iteration count must advance once per body execution. A degree-of-homogeneity type system (HOMOG: b has degree 1, exact zeros and "
             "division guards any degree, products add, sums need equal degrees) additionally decides that the stopping test compares quantities of equal degree (a relative tolerance), "
@@ -127,11 +127,11 @@ CHECKS = {
             "coefficient conjugates the basis it is later multiplied with; lanczos_eigs sorts ascending and permutes values and vector columns by the same index; diagonal, off-diagonal "
             "and Q are trimmed to N, N-1, N for one size N, and N counts the steps run (final loop counter minus its initial value; the loop runner's 'iterations' counts "
             "condition evaluations, one more); the work buffers of init_lanczos are typed by the operator's dtype at every call site; every clip / maximum bound inside the "
-            "factorisation loop has the degree of homogeneity (in the scale of A) of the quantity it guards; the loop condition folds to False at an exact breakdown. The stopping test continues while ANY column is above its threshold (polarity of comparison and reduction); no in-place write on a value that may be the operator product or the loop state (products may return their operand); Ritz values are in ascending order by abstract interpretation over spectrum orders, helpers followed. The diagonal handed to Tridiagonal comes from the factorisation through selections, `.real`, casts and copies only. The relative breakdown test must not compare the first tested entry with itself (open finding).",
+            "factorisation loop has the degree of homogeneity (in the scale of A) of the quantity it guards; the loop condition folds to False at an exact breakdown. Every wrapper and the algorithm object hand their own tolerance / iteration cap (C12: also start vector and preconditioner) on to the routine they call (option-passthrough). The stopping test continues while ANY column is above its threshold (polarity of comparison and reduction); no in-place write on a value that may be the operator product or the loop state (products may return their operand); Ritz values are in ascending order by abstract interpretation over spectrum orders, helpers followed. The diagonal handed to Tridiagonal comes from the factorisation through selections, `.real`, casts and copies only. The relative breakdown test must not compare the first tested entry with itself (open finding).",
             "Orthonormality, the three-term recurrence, early termination and A Q - Q T are numerical and not decided.", "4/C14"),
     "C15": ("bounded-loop certificate, allocation check of the work buffers, sign provenance, dependence of the normalisation floor on the tolerance, projection convention",
             "Thin structural claim: at most min(max_iters, n) steps; H and Q are zero-initialised (never empty) and sized by the requested cap, which is why extra rows/columns stay zero; "
-            "sub-diagonal entries are norms; the new vector is divided by clip(norm, floor) with a floor that depends on tol (a tol-independent floor turns post-breakdown rounding noise "
+            "sub-diagonal entries are norms; every wrapper and the Arnoldi object hand tol / max_iters on to the routine they call; the new vector is divided by clip(norm, floor) with a floor that depends on tol (a tol-independent floor turns post-breakdown rounding noise "
             "into a unit column with a zero H column); modified Gram-Schmidt conjugates the basis; the first column is the normalised start vector; arnoldi_eigs drops the last row of H "
             "and last column of Q together; the work buffers of init_arnoldi are typed by the operator's dtype at every call site; every clip / maximum bound inside the factorisation "
             "loop has the degree of homogeneity (in the scale of A) of the quantity it guards (refuted on this tree: known finding); the loop condition folds to False at an exact "
